@@ -508,8 +508,9 @@ func (e *SpecEnv) evalSel(n ESel) Val {
 	if id, ok := n.X.(EIdent); ok {
 		if _, bound := e.vars[id.Name]; !bound {
 			if pkg := e.pkg(); pkg != nil {
+				want := g.W.specImports[pkg.Path()][id.Name]
 				for _, imp := range pkg.Imports() {
-					if imp.Name() == id.Name {
+					if (want == "" && imp.Name() == id.Name) || (want != "" && imp.Path() == want) {
 						if _, isVar := e.tryIdent(id.Name); !isVar {
 							if o := imp.Scope().Lookup(n.F); o != nil {
 								return e.objVal(o)
